@@ -282,6 +282,9 @@ def run(ctx: Ctx):
                                blocked=r_.get("blocked"), api=bad["api"].split(".", 1)[-1] if bad else None,
                                what=f"pair (active {r_['active']}, {r_['order']}, cap {r_['cap']}, cycles {r_['cycles']}, {r_['policy']}): {v['clause']}"
                                     + (f": {bad}" if bad else f" comm={r_['comm']}")))
+    # both endpoints hand every message over through the dispatcher loops: 30 (300) runs validated against DispatcherLoops (C04)
+    from . import c04_trace
+    c04_trace.check(ctx, wd, pmap, only_plain=True)
     ctx.rule = ("sessions = {host active, equipment active} x {host first, equipment first} x receive buffer {64 KiB, 64 B} x "
                 "disable/enable cycles {none, host, equipment, both} x thread schedule (fifo / random / PCT, optionally with wake-up latency "
                 "of the select thread or of application / protocol helper threads, or the enabling thread descheduled between the "
